@@ -406,8 +406,25 @@ def check(run, repo, world):
     for n in cfg.reachable:
         if n.kind == "stmt" and isinstance(n.ast, ast.Assign) and \
                 _is_pool_pop(n.ast.value, pool):
+            # ... or the pop is tried and an empty pool caught (the
+            # statement sits alone in a try whose handler takes IndexError)
+            eafp = False
+            for t_ in ast.walk(fn):
+                if isinstance(t_, ast.Try) and any(
+                        s_ is n.ast for s_ in t_.body) and len(
+                            t_.body) == 1:
+                    for h_ in t_.handlers:
+                        nm_ = ["<bare>"] if h_.type is None else [
+                            unparse(e_) for e_ in (
+                                h_.type.elts if isinstance(
+                                    h_.type, ast.Tuple) else [h_.type])]
+                        if set(nm_) & {"IndexError", "LookupError",
+                                       "Exception", "<bare>"} and not any(
+                                isinstance(x_, (ast.Yield, ast.YieldFrom))
+                                for x_ in ast.walk(h_)):
+                            eafp = True
             run.ob("R-COMM-POOL", C + "#pop-guard",
-                   W.must(n, ("cond", pool, True)),
+                   W.must(n, ("cond", pool, True)) or eafp,
                    "pool.pop() is not guarded by a non-empty test",
                    where(mod, n))
 
